@@ -97,7 +97,7 @@ def factory_hook(captured):
         if name == "Point2D":
             return point2d(*args)
         if name == "polygon" and isinstance(recv, Obj) and str(recv) == "class:Primitive":
-            captured["vertices"] = list(args[0])
+            captured["vertices"] = [point2d(v) for v in args[0]]       # points, or pairs the polygon factory makes points of
             return "SHAPE"
         if name == "empty" or name in ("linspace", "arange") or name in ("cos", "sin"):
             raise Undecided("numpy trigonometry")
